@@ -87,7 +87,9 @@ fn has_permission(
                     is_allowed
                 })
             }
-            None => selected_db_user_name == "all",
+            // Only a database-token session (no user) is unrestricted by default; a user who
+            // happens to be named "all" still needs a permission list
+            None => client.selected_db_user_name().is_none(),
         }
     }
 }
